@@ -3,6 +3,7 @@ package threads
 import (
 	"fmt"
 	"sort"
+	"strings"
 
 	"0chain.net/chaincore/block"
 	"0chain.net/chaincore/node"
@@ -438,7 +439,12 @@ func execC37(env *sim.Env, p *sim.Plan) *sim.Result {
 		}
 		stuck := ""
 		for _, st := range rn.s.StuckGs {
-			stuck += fmt.Sprintf(" g%d:%s@%s", st.ID, kindOf[st.Tag], st.Site)
+			stuck += fmt.Sprintf(" g%d:%s@%s(holds %d)", st.ID, kindOf[st.Tag], st.Site, st.Held)
+			if leakedBy == "" && st.Held > 0 && strings.HasSuffix(st.Site, ":RL") {
+				// a goroutine that holds a lock waits for a read lock while a writer is pending:
+				// sync.RWMutex admits no new reader then, not even one that already reads
+				cause = "nested-read-lock-with-writer-pending"
+			}
 		}
 		viol("deadlock-detector", "operation-never-returns/"+cause, "every live goroutine spins on a lock that is never released:"+stuck)
 	} else if leakedBy != "" {
